@@ -210,6 +210,7 @@ type Exec struct {
 	prune bool
 	nfeas int
 	nextCalls int
+	callers   []*Frame // frames waiting for an inlined callee, outermost first
 }
 
 func (ex *Exec) newCell(t types.Type, name string) *Cell {
@@ -606,6 +607,24 @@ func (ex *Exec) execBlock(fr *Frame, st *State, blk, prev *ssa.BasicBlock, outs 
 	// loop header handling
 	if ord, isHeader := fr.loops.headers[blk]; isHeader {
 		if !fr.top {
+			if invs := ex.inlineInvs(fr, ord); len(invs) > 0 {
+				// the contract under verification supplies invariants for this loop of an inlined callee:
+				// cut it exactly like a loop of the function itself (names resolve in the top function's scope)
+				label := fmt.Sprintf("%s.%d", fr.fn.Name(), ord)
+				if st.cut[blk] {
+					ex.evalPhis(fr, st, blk, prev)
+					ex.checkInvList(fr, st, invs, label, "inv-step")
+					return
+				}
+				ex.evalPhis(fr, st, blk, prev)
+				ex.checkInvList(fr, st, invs, label, "inv-init")
+				ex.havocLoop(fr, st, blk)
+				ex.havocIterators(st)
+				st.cut[blk] = true
+				ex.assumeInvList(fr, st, invs, label)
+				ex.execInstrs(fr, st, blk, firstNonPhi(blk), outs)
+				return
+			}
 			// loops of inlined callees are unrolled; the bound is a resource limit, not an approximation:
 			// a path that needs more iterations makes the function fall outside the subset
 			if st.visits == nil {
@@ -717,6 +736,103 @@ func (ex *Exec) assumeInvariants(fr *Frame, st *State, blk *ssa.BasicBlock, ord 
 	}
 }
 
+// inlineInvs: invariants the contract under verification gives for loop ord of the inlined callee fr.fn.
+func (ex *Exec) inlineInvs(fr *Frame, ord int) []*Clause {
+	if ex.ct == nil || ex.ct.InlineInvs == nil || len(ex.callers) == 0 {
+		return nil
+	}
+	return ex.ct.InlineInvs[fmt.Sprintf("%s.%d", fr.fn.Name(), ord)]
+}
+
+// inlineInvEnv: the scope of the top function plus the state of the innermost open store iterator
+// (it_valid, it_key: the abstract key the iterator stands on, it_store: the snapshot it ranges over).
+func (ex *Exec) inlineInvEnv(st *State) *Env {
+	env := ex.envFor(ex.callers[0], st)
+	best := 0
+	for id, it := range st.iters {
+		if !it.Closed && id > best {
+			best = id
+		}
+	}
+	if best > 0 {
+		it := st.iters[best]
+		kd := ex.kvdecl(it.Store)
+		env.vars["it_valid"] = TV{it.Valid, "Bool"}
+		env.vars["it_key"] = TV{it.Cur, kd.KeySort}
+		env.vars["it_store"] = TV{it.Snapshot, ex.ghostSort(it.Store)}
+	}
+	return env
+}
+
+func (ex *Exec) checkInvList(fr *Frame, st *State, invs []*Clause, label, kind string) {
+	env := ex.inlineInvEnv(st)
+	for _, cl := range invs {
+		tv, err := env.Translate(cl.E, "Bool")
+		if err != nil {
+			unsupported("loop %s invariant: %v", label, err)
+		}
+		ex.addObl(kind, label+"."+cl.Label, ex.ct.Props, st, tv.T, fmt.Sprintf("%s:%d", cl.File, cl.Line), cl.Text)
+	}
+}
+
+func (ex *Exec) assumeInvList(fr *Frame, st *State, invs []*Clause, label string) {
+	env := ex.inlineInvEnv(st)
+	for _, cl := range invs {
+		tv, err := env.Translate(cl.E, "Bool")
+		if err != nil {
+			unsupported("loop %s invariant: %v", label, err)
+		}
+		st.assume(tv.T)
+	}
+}
+
+// havocIterators forgets the position of every open store iterator (the loop advances them).
+func (ex *Exec) havocIterators(st *State) {
+	for _, it := range st.iters {
+		if it.Closed {
+			continue
+		}
+		if it.Limit > 0 {
+			unsupported("loop invariant over a paginated iterator")
+		}
+		kd := ex.kvdecl(it.Store)
+		it.Cur = ex.u.Fresh("it.key", kd.KeySort)
+		it.Valid = ex.u.Fresh("it.valid", "Bool")
+	}
+}
+
+// fnModifies: ghost variables a function body (a closure called inside a loop) may change.
+func (ex *Exec) fnModifies(fn *ssa.Function, seen map[*ssa.Function]bool) (mods []string, all bool) {
+	if seen[fn] {
+		return nil, false
+	}
+	seen[fn] = true
+	for _, b := range fn.Blocks {
+		for _, in := range b.Instrs {
+			ci, ok := in.(ssa.CallInstruction)
+			if !ok {
+				continue
+			}
+			com := ci.Common()
+			if !com.IsInvoke() {
+				if _, isBuiltin := com.Value.(*ssa.Builtin); isBuiltin {
+					continue
+				}
+				if mc, ok := com.Value.(*ssa.MakeClosure); ok {
+					m, a := ex.fnModifies(mc.Fn.(*ssa.Function), seen)
+					mods = append(mods, m...)
+					all = all || a
+					continue
+				}
+			}
+			m, a := ex.calleeModifies(com)
+			mods = append(mods, m...)
+			all = all || a
+		}
+	}
+	return mods, all
+}
+
 // havocLoop forgets everything the loop may change.
 func (ex *Exec) havocLoop(fr *Frame, st *State, header *ssa.BasicBlock) {
 	body := fr.loops.body[header]
@@ -793,7 +909,13 @@ func (ex *Exec) havocLoop(fr *Frame, st *State, header *ssa.BasicBlock) {
 						}
 					}
 				}
-				mods, all := ex.calleeModifies(com)
+				var mods []string
+				var all bool
+				if r, ok := fr.regs[com.Value]; ok && !com.IsInvoke() && r.Fn != nil && r.Fn.Fn != nil {
+					mods, all = ex.fnModifies(r.Fn.Fn, map[*ssa.Function]bool{})
+				} else {
+					mods, all = ex.calleeModifies(com)
+				}
 				if all {
 					ghostAll = true
 				}
